@@ -252,6 +252,26 @@ def e2(prog: Program, chk: Check) -> None:
             "" if ok else f"use counts {uses}")
 
 
+def e4(prog: Program, chk: Check) -> None:
+    chk.rule("E4", "the basis change stored with a process tensor acts on the right legs with "
+             "the right orientation in both get_mpo_tensor implementations: the returned tensor "
+             "is M_in[k,i] T[a,b,i,j] M_out[j,l] -> [a,b,k,l] (index calculus over dot / @ / "
+             "tensordot / einsum / moveaxis / .T, independent of the spelling); with M_in = "
+             "LRS(U^dagger, U)^T and M_out = LRS(U, U^dagger)^T (E2) this is the rotation into "
+             "the coupling eigenbasis and back", floor=2)
+    from rules.c16 import EXPECTED_TRANSFORMED, transform_signatures
+    for cq in ("SimpleProcessTensor", "FileProcessTensor"):
+        u = prog.unit(f"process_tensor:{cq}.get_mpo_tensor")
+        chk.saw(u)
+        sigs = transform_signatures(u, True)
+        ok = bool(sigs) and all(sg == EXPECTED_TRANSFORMED for sg in sigs)
+        bad = next((sg for sg in sigs if sg != EXPECTED_TRANSFORMED), None)
+        chk.add("E4", u, "transformed MPO tensor = M_in[k,i] T[a,b,i,j] M_out[j,l]", ok,
+                f"{len(sigs)} path(s)" if ok else
+                f"a path returns {bad}: for a unitary that is not symmetric the process tensor "
+                f"is rotated with U^T instead of U^dagger (or onto the wrong leg)")
+
+
 def e3(prog: Program, chk: Check) -> None:
     chk.rule("E3", "Bath stores exactly the solver's outputs: eigenvalues (tuple position 0) as the "
              "diagonal operator, eigenvectors (position 1) as the transform, unmodified; the "
@@ -327,6 +347,7 @@ def run(prog: Program, chk: Check) -> None:
     chk.not_decided = "Numerical covariance of the dynamics under a change of basis."
     chk.assumptions = ["LAPACK: eigh returns orthonormal eigenvectors and real eigenvalues for "
                        "every Hermitian input; geev (eig) does not for repeated eigenvalues"]
-    e1(prog, chk)
-    e2(prog, chk)
-    e3(prog, chk)
+    chk.call(e1, prog, chk)
+    chk.call(e2, prog, chk)
+    chk.call(e3, prog, chk)
+    chk.call(e4, prog, chk)
